@@ -16,7 +16,7 @@ const char *MC_RULE =
 const char *MC_ASSUME[] = {"GEO chart oracle and libm are trusted; cellToBoundary/cellToLatLng of the returned cell define the polygon "
                            "(their mutual consistency is C08's)",
                            NULL};
-const char *MC_CTR_NAMES[] = {"probes", "probes_inside_by_winding", "probes_within_tolerance", "error_class_cases", "cells_with_lattice", NULL};
+const char *MC_CTR_NAMES[] = {"probes", "probes_inside_by_winding", "probes_within_tolerance", "error_class_cases", "cells_with_lattice", "reserved5", "reserved6", "axis_parallel_edge_cells", NULL};
 const char *MC_MAX_NAMES[] = {"excess_over_boundary_rad", "excess_over_tolerance_ratio", NULL};
 #define CANARY 0xC0FFEE0DDEADBEEFull
 enum { OP_PT, OP_CELL };
@@ -196,6 +196,21 @@ static void ph_cells(void *u) {
         MC_RUN(OP_CELL, H(g_cells.v[i]), I(g_thin));
     }
 }
+// cells with an exactly east-west / north-south boundary edge (bit-identical latitudes or longitudes of consecutive vertices), found by the
+// directed search of dom_axis at resolutions 12..15; each worker searches its own share of start cells and probes what it finds
+static void ph_axis(void *u) {
+    for (int r = 15; r >= 12; r--) {
+        U64Vec v = {0};
+        dom_axis(r, r == 15 ? (mc_thorough ? 3000 : 400) : (mc_thorough ? 6000 : 600), mc_wid, mc_nw, &v);
+        for (size_t i = 0; i < v.n; i++) {
+            if ((i & 7) == 0 && mc_expired()) return;
+            mc_states(1);
+            mc_ctr(7, 1);
+            MC_RUN(OP_CELL, H(v.v[i]), I(1));
+        }
+        uv_free(&v);
+    }
+}
 // cells within `rings` geometric steps of the cell containing each face centre, at resolution r
 static void dom_face(int r, int rings, U64Vec *out) {
     for (int f = 0; f < g_nfaces; f++) {
@@ -236,6 +251,7 @@ int main(int argc, char **argv) {
     uv_sortuniq(&g_cells);
     g_thin = !mc_thorough;
     mc_phase("lattice on fine families", ph_cells, NULL);
+    mc_phase("lattice on cells with an exactly axis-parallel edge (res 12-15, directed search)", ph_axis, NULL);
     if (mc_thorough) {
         g_cells.n = 0;
         dom_full(5, &g_cells);
